@@ -26,6 +26,9 @@ func (cp *CollectingProcess) startTCPServer() {
 			klog.Errorf("Cannot start tls collecting process on %s: %v", cp.address, err)
 			return
 		}
+		// Must happen before the address is published: a caller which waits for
+		// GetAddress() before calling Stop() must find the counter already incremented.
+		cp.wg.Add(1)
 		cp.updateAddress(listener.Addr())
 		klog.Infof("Started TLS collecting process on %s", cp.netAddress)
 	} else {
@@ -35,11 +38,13 @@ func (cp *CollectingProcess) startTCPServer() {
 			klog.Errorf("Cannot start collecting process on %s: %v", cp.address, err)
 			return
 		}
+		// Must happen before the address is published: a caller which waits for
+		// GetAddress() before calling Stop() must find the counter already incremented.
+		cp.wg.Add(1)
 		cp.updateAddress(listener.Addr())
 		klog.Infof("Start TCP collecting process on %s", cp.netAddress)
 	}
 
-	cp.wg.Add(1)
 	go func(stopCh chan struct{}) {
 		defer cp.wg.Done()
 		for {
